@@ -37,3 +37,34 @@ Example pause_after_data_delivers :
   map (fun e => snd (fst e)) tr = [one 250; one 250; one 250; one 354; one 250; one 221] /\
   map d_mailbox (deliveries_of tr) = [[122]] /\ st sf = QUIT.
 Proof. vm_compute. repeat split; reflexivity. Qed.
+
+(** STARTTLS (second audit): the switch on a concrete stream.  EHLO, STARTTLS with QUIT and NOOP injected in plaintext
+    behind it, then under TLS: NOOP, EHLO, a second STARTTLS, QUIT.  With the switch the injected lines are never
+    answered; the plain byte loop on the same bytes executes the injected QUIT (that is why [run_bytes] is the model
+    of a TLS-enabled server only for streams with nothing pipelined behind an accepted STARTTLS). *)
+Definition c_tls := {| pol := pol c0; max_rcpt := 10; max_bytes := 1000; tls_enabled := true |}.
+Definition w_plain : str := [69;72;76;79;32;97;13;10] ++ [83;84;65;82;84;84;76;83;13;10] ++ w_quit ++ [78;79;79;80;13;10].
+Definition w_secure : str := [78;79;79;80;13;10] ++ [69;72;76;79;32;98;13;10] ++ [83;84;65;82;84;84;76;83;13;10] ++ w_quit.
+
+Example starttls_injection_instance :
+  map (fun e => map fst (snd (fst e))) (snd (fst (run_bytes_tls c_tls orc w_plain w_secure)))
+    = [[250;250;250;250;250]; [220]; [250]; [250;250;250;250]; [454]; [221]]%Z /\
+  map (fun e => map fst (snd (fst e))) (snd (fst (run_bytes c_tls orc (w_plain ++ w_secure))))
+    = [[250;250;250;250;250]; [220]; [221]]%Z.
+Proof. vm_compute. split; reflexivity. Qed.
+
+(** the 220 of STARTTLS is a reply the step function writes (Proofs/SmtpReplies.v exempts 220 as the greeting's code) *)
+Example starttls_writes_220 :
+  exists s', step c_tls {| st := READY; from := None; rcpts := []; helo := [97]; tls := false |} (L Starttls) = Ok s' (one 220) [].
+Proof. eexists. reflexivity. Qed.
+
+(** failing writes on the complete dialogue: the server's writes fail after k lines (greeting included).  k = 4: the
+    transcript runs through the block (250 250 250 354 250), the message is stored, the client saw 250 250 250 - the one
+    block beyond what it saw; k = 7: the block's 250 is among the lines the client received. *)
+Example write_failure_instance :
+  (let '(its, tr, seen) := run_net_w c0 orc [w_all] FEof (Some 4%nat) in
+   (map (fun e => map fst (snd (fst e))) tr, length (deliveries_of tr), map fst seen))
+    = ([[250]; [250]; [250]; [354]; [250]]%Z, 1%nat, [250; 250; 250]%Z) /\
+  (let '(its, tr, seen) := run_net_w c0 orc [w_all] FEof (Some 7%nat) in
+   (length (deliveries_of tr), map fst seen)) = (1%nat, [250; 250; 250; 354; 250; 221]%Z).
+Proof. vm_compute. split; reflexivity. Qed.
